@@ -64,6 +64,11 @@ def finish(prop, tier, seed, res, wall):
     vlib.write_evidence(prop, tier, seed, res.get('level', 'model_checking'), cov, res.get('assumptions', []), wall, new)
     for n in res.get('notes', []):
         log('note: ' + n)
+    # raw traces are large: drop the work directories of this property (replay files keep program + schedule)
+    if not os.environ.get('VERIF_KEEP_WORK'):
+        import shutil
+        for d in (prop, 'b3'):
+            shutil.rmtree(os.path.join(OUT, 'work', d), ignore_errors=True)
     log('%s tier=%s: %d new violation(s), %d known-finding witness(es), %.1fs' % (prop, tier, new, known, wall))
     sys.stdout.flush()
     return 1 if new else 0
